@@ -334,7 +334,7 @@ def snapshot(font):
         glyphs.append((name, list(g.unicodes), bool(g.dirty), g.width, len(g), len(g.components)))
     return dict(glyphs=glyphs, order=list(font.glyphOrder), dirty=(bool(font.dirty), bool(layer.dirty), bool(ud.dirty)),
                 cmap=sorted((k, list(v)) for k, v in ud.items()), lib=copy.deepcopy(dict(font.lib)),
-                forced=(sorted(ud._glyphNameToForcedUnicode.items()), sorted(ud._forcedUnicodeToGlyphName.items())),
+                forced=[ud.glyphNameForForcedUnicode(v) for v in range(0xE000, 0xE020)],
                 layers=list(font.layers.layerOrder))
 
 
@@ -607,6 +607,8 @@ def extract(repo, lean_dir):
         with open(path, "w") as f:
             f.write(text)
         changed.append("Gen/SortTables.lean")
+    if "Unknown" not in scripts or "Cn" not in cats:
+        raise ValueError("the default script/category of a name without unicode is not in the ordered tables")
     if uncovered:
         raise ValueError("code points whose script/category is not in the ordered tables: %s" % [hex(v) for v in uncovered])
     info = dict(obligations=TABLE_OBLIGATIONS, tables=dict(
